@@ -149,7 +149,7 @@ fn hid_stream(cid: u32, cmd: Command, len: usize, seed: u64) -> Vec<Vec<u8>> {
 fn build_corpus() -> Corpus {
     // a small real ceremony provides genuine responses, authenticator data and COSE keys
     let mut r = Rng::new(0xC15C_0DE5);
-    let mut c = ceremony(Backend::Ref, Wrap::Bare, StoreCfg { newest_first: false, nomatch_err: false, capability: Capability::Full });
+    let mut c = ceremony(Backend::Ref, Wrap::Bare, StoreCfg { newest_first: false, nomatch_err: false, capability: Capability::Full, ignore_ids: false });
     c.rng_seed = 7;
     let mut actor = gen_actor(&mut r);
     actor.hmac = HmacCfg::WithoutUv;
@@ -647,6 +647,10 @@ fn sweep_for(decoder: &str, base: &[u8]) -> Vec<Vec<LinkFault>> {
         out.push(vec![LinkFault::BitFlip(i as u32)]);
     }
     // extension
+    for k in 1..=4usize {
+        out.push(vec![LinkFault::Extend(vec![0x00; k])]);
+        out.push(vec![LinkFault::Extend(vec![0xff; k])]);
+    }
     out.push(vec![LinkFault::Extend(vec![0xff; 17])]);
     out.push(vec![LinkFault::Extend(base[..n.min(40)].to_vec())]);
     if decoder.starts_with("cbor:") || decoder == "bin:AuthenticatorData" {
